@@ -50,29 +50,29 @@ type floor struct {
 // Ctx accumulates what one check run observed. In child mode every call is appended to
 // the WAL instead (the parent replays it), so a child that dies loses nothing it reported.
 type Ctx struct {
-	mu       sync.Mutex
-	Prop     string
-	Level    string
-	tier     string
-	seed     int64
-	start    time.Time
-	evals    int
-	distinct map[string]struct{}
-	samples  []any
-	events   map[string]int
-	cover    map[string]map[string]int
-	floors   map[string]*floor
-	undec    map[string]int
-	viol     []Violation
-	violSeen map[string]int
-	notes    []string
-	assume   []string
-	rule     string
-	extra    map[string]any
-	known    map[string]string
-	exhaust  *bool
-	wal      *os.File // child mode
-	replayN  int
+	mu         sync.Mutex
+	Prop       string
+	Level      string
+	tier       string
+	seed       int64
+	start      time.Time
+	evals      int
+	distinct   map[string]struct{}
+	samples    []any
+	events     map[string]int
+	cover      map[string]map[string]int
+	floors     map[string]*floor
+	undec      map[string]int
+	viol       []Violation
+	violSeen   map[string]int
+	notes      []string
+	assume     []string
+	rule       string
+	extra      map[string]any
+	known      map[string]string
+	exhaust    *bool
+	wal        *os.File // child mode
+	replayN    int
 	MaxSamples int
 }
 
@@ -110,10 +110,10 @@ func OpenChild(prop, level, walPath string) *Ctx {
 	return c
 }
 
-func (c *Ctx) IsChild() bool  { return c.wal != nil }
-func (c *Ctx) Tier() string   { return c.tier }
-func (c *Ctx) Quick() bool    { return c.tier == "quick" }
-func (c *Ctx) Seed() int64    { return c.seed }
+func (c *Ctx) IsChild() bool { return c.wal != nil }
+func (c *Ctx) Tier() string  { return c.tier }
+func (c *Ctx) Quick() bool   { return c.tier == "quick" }
+func (c *Ctx) Seed() int64   { return c.seed }
 func (c *Ctx) Pick(q, t int) int {
 	if c.Quick() {
 		return q
@@ -133,13 +133,13 @@ func SubSeed(seed int64, stream string) int64 {
 }
 
 type walOp struct {
-	Op  string          `json:"op"`
-	K   string          `json:"k,omitempty"`
-	K2  string          `json:"k2,omitempty"`
-	N   int             `json:"n,omitempty"`
-	N2  int             `json:"n2,omitempty"`
-	S   string          `json:"s,omitempty"`
-	V   json.RawMessage `json:"v,omitempty"`
+	Op string          `json:"op"`
+	K  string          `json:"k,omitempty"`
+	K2 string          `json:"k2,omitempty"`
+	N  int             `json:"n,omitempty"`
+	N2 int             `json:"n2,omitempty"`
+	S  string          `json:"s,omitempty"`
+	V  json.RawMessage `json:"v,omitempty"`
 }
 
 func (c *Ctx) emit(op walOp) {
@@ -528,17 +528,17 @@ func (c *Ctx) Finish() int {
 		c.notes = []string{}
 	}
 	cov := map[string]any{
-		"evaluations":         c.evals,
-		"distinct_nontrivial": len(c.distinct),
-		"rule":                c.rule,
-		"samples":             c.samples,
-		"events":              c.events,
-		"floors":              c.floors,
-		"coverage_tables":     c.cover,
-		"undecided":           c.undec,
-		"notes":               c.notes,
+		"evaluations":            c.evals,
+		"distinct_nontrivial":    len(c.distinct),
+		"rule":                   c.rule,
+		"samples":                c.samples,
+		"events":                 c.events,
+		"floors":                 c.floors,
+		"coverage_tables":        c.cover,
+		"undecided":              c.undec,
+		"notes":                  c.notes,
 		"known_findings_matched": knownMatched,
-		"violation_details":   c.viol,
+		"violation_details":      c.viol,
 	}
 	if len(c.samples) == 0 {
 		cov["samples"] = []any{"(no sample recorded)"}
